@@ -5,7 +5,12 @@ export GOFLAGS=-mod=mod GOPROXY=off
 unset GOSUMDB
 out=$(mktemp)
 # cmd/keymasterd tests listen on a fixed port: serialise with the harness runs
-flock /tmp/.verif-gotest.lock go test -json -vet=off -count=1 -timeout 25m ./... > "$out" 2>/dev/null
+if unshare -n true 2>/dev/null; then
+  # private loopback: no collision with harness runs on the fixed test port
+  unshare -n sh -c 'ip link set lo up && exec go test -json -vet=off -count=1 -timeout 25m ./...' > "$out" 2>/dev/null
+else
+  flock /tmp/.verif-gotest.lock go test -json -vet=off -count=1 -timeout 25m ./... > "$out" 2>/dev/null
+fi
 python3 - "$out" <<'PY'
 import json,sys
 passed=set()
